@@ -1,5 +1,9 @@
 """C13 — spanning_cidr returns the smallest single block covering all inputs.
-Op: span_nets [N:ver:val:plen,...]  ->  ver:val/plen | !value | !type"""
+Op: span_nets [N:ver:val:plen,...]  ->  ver:val/plen | !value | !type
+Op: spanning_raw [item,...]  (item = S:<hex> | I:<int> | A:ver:val | N:ver:val:plen | R:ver:lo:hi) -> the same | !tag
+    — the model coerces each element with IPNetwork(x) itself, in the order the code does (Model/Coerce.lean).
+items: (ver, value, plen, form), form in net addr astr str, and for raw cases also mask (addr/netmask text),
+host (addr/hostmask text), int (bare int), bad (unparsable text), rng (an IPRange object): the last three raise."""
 import ipaddress
 from common import Case, W, rand_value, rand_block, errname, plist
 import netaddr
@@ -9,7 +13,9 @@ ID = 'C13'
 RULE = ('sequences of 0-7 IPAddress / IPNetwork (any host bits) / address-string / CIDR-string inputs built relative '
         'to a first block: identical, nested, sibling, adjacent, one apart, far apart, differing prefix lengths, '
         'bottom/top of the space, both families; each base sequence also shuffled and with repeated elements; '
-        'sequences of length 0/1 (ValueError) and mixed families (TypeError). non-trivial = distinct case whose '
+        'sequences of length 0/1 (ValueError) and mixed families (TypeError); ~30% of the cases reach the model '
+        'uncoerced (op spanning_raw), with netmask / hostmask spellings and, in a tenth of them, a bare int, an '
+        'IPRange or an unparsable text at a random position (must raise). non-trivial = distinct case whose '
         'implementation output is not an error')
 
 
@@ -24,9 +30,45 @@ def _astr(ver, v):
     return str(ipaddress.IPv4Address(v)) if ver == 4 else str(ipaddress.IPv6Address(v))
 
 
-def _case(items, tag, container='list'):
+_BADFORMS = ('int', 'bad', 'rng')
+_BAD_TEXTS = ('', 'bad', '1.2.3.4/33', '1.2.3.4/', '1.2.3.256', '::1/129', '1.2.3.4//8', ':::', '1.2.3.4/255.0.255.0')
+
+
+def _raw_tok(i):
+    ver, v, p, form = i
+    if form == 'net':
+        return 'N:%d:%d:%d' % (ver, v, p)
+    if form == 'addr':
+        return 'A:%d:%d' % (ver, v)
+    if form == 'int':
+        return 'I:%d' % v
+    if form == 'rng':
+        return 'R:%d:%d:%d' % (ver, v, v)
+    return 'S:' + _obj(i).encode('utf-8').hex()
+
+
+def _case(items, tag, container='list', raw=False):
+    if raw:
+        line = 'spanning_raw %s' % plist(_raw_tok(i) for i in items)
+        return Case(line, 'raw/' + tag, ('span', tuple(items), container))
     line = 'span_nets %s' % plist('N:%d:%d:%d' % (i[0], i[1], i[2]) for i in items)
     return Case(line, tag, ('span', tuple(items), container))
+
+
+def _rawify(rng, items, tag):
+    """respell some elements; in a tenth of the cases put something that is no address or network somewhere"""
+    out = []
+    for (ver, v, p, form) in items:
+        if form in ('net', 'str') and rng.random() < 0.35:
+            form = 'host' if (0 < p < W[ver] and rng.random() < 0.4) else 'mask'
+        out.append((ver, v, p, form))
+    if rng.random() < 0.1:
+        ver = rng.choice((4, 6))
+        v = rand_value(rng, W[ver])
+        x = (ver, v, W[ver], rng.choice(_BADFORMS))
+        out.insert(rng.randrange(len(out) + 1), x)
+        tag = 'err/notnet'
+    return out, tag
 
 
 def corpus():
@@ -48,6 +90,17 @@ def corpus():
         _case([N(a, 24)], 'err/short'),
         _case([N(a, 24), N(a, 24, 6)], 'err/mixed'),
         _case([N(a, 24), N(a, 24), N(5, 24, 6)], 'err/mixed'),
+        # through the model's own coercion: every spelling; order of the first error
+        _case([N(a + 5, 24, form='mask'), N(a + 256, 24, form='host'), N(a + 7, 32, form='astr'), N(a, 32, form='addr')],
+              'corpus', raw=True),
+        _case([N(a, 24, form='str')], 'err/short', raw=True),
+        _case([N(a, 32, form='bad')], 'err/notnet', raw=True),                          # conversion error before "too short"
+        _case([N(a, 24, form='str'), N(5, 128, 6, 'astr'), N(a, 32, form='bad')], 'err/notnet', raw=True),   # TypeError first
+        _case([N(a, 24, form='str'), N(a, 32, form='bad'), N(5, 128, 6, 'astr')], 'err/notnet', raw=True),   # AddrFormatError first
+        _case([N(a, 24, form='str'), N(a, 24, form='net'), N(5, 128, 6, 'astr'), N(a, 32, form='bad')], 'err/notnet', raw=True),
+        _case([N(a, 24, form='str'), N(a, 24, form='net'), N(a, 32, form='bad'), N(5, 128, 6, 'astr')], 'err/notnet', raw=True),
+        _case([N(a, 32, form='int'), N(a, 24)], 'err/notnet', raw=True),
+        _case([N(a, 24), N(a, 32, form='rng')], 'err/notnet', raw=True),
     ]
     return out
 
@@ -89,22 +142,29 @@ def _base_seq(rng, ver):
 def generate(rng, tier):
     mult = 1 if tier == 'quick' else 4
     cases = []
+
+    def add(items, tag, container='list'):
+        if rng.random() < 0.3:
+            items, tag = _rawify(rng, items, tag)
+            cases.append(_case(items, tag, container, raw=True))
+        else:
+            cases.append(_case(items, tag, container))
     for _ in range(2500 * mult):
         ver = rng.choice((4, 6))
         seq = _base_seq(rng, ver)
-        cases.append(_case(seq, 'span/v%d/n%d' % (ver, min(len(seq), 4)), rng.choice(['list', 'list', 'tuple', 'iter'])))
+        add(seq, 'span/v%d/n%d' % (ver, min(len(seq), 4)), rng.choice(['list', 'list', 'tuple', 'iter']))
         sh = list(seq)
         rng.shuffle(sh)
-        cases.append(_case(sh, 'span/shuffled'))
+        add(sh, 'span/shuffled')
         dup = list(seq) + [rng.choice(seq) for _ in range(rng.randrange(1, 3))]
         rng.shuffle(dup)
-        cases.append(_case(dup, 'span/dup'))
+        add(dup, 'span/dup')
     for _ in range(200 * mult):
         ver = rng.choice((4, 6))
         seq = _base_seq(rng, ver)
         r = rng.random()
         if r < 0.4:
-            cases.append(_case(seq[:rng.randrange(0, 2)], 'err/short', rng.choice(['list', 'tuple', 'iter'])))
+            add(seq[:rng.randrange(0, 2)], 'err/short', rng.choice(['list', 'tuple', 'iter']))
         else:
             ov = 10 - ver
             v, p = rand_block(rng, ov)
@@ -112,7 +172,20 @@ def generate(rng, tier):
                 v = seq[0][1] & ((1 << W[ov]) - 1)
             pos = rng.randrange(0, len(seq) + 1)
             mixed = seq[:pos] + [(ov, v, p, _form(rng, W[ov], p))] + seq[pos:]
-            cases.append(_case(mixed, 'err/mixed'))
+            add(mixed, 'err/mixed')
+    for _ in range(150 * mult):
+        # which error comes first: an element of the other family and an element that is no network, at
+        # independent positions (the code converts the first two at once and the others one by one inside its loop)
+        ver = rng.choice((4, 6))
+        seq = _base_seq(rng, ver)[:rng.choice((1, 2, 2, 3, 4))]
+        ov = 10 - ver
+        extra = [(ov, rand_value(rng, W[ov]), W[ov], rng.choice(['astr', 'addr', 'net'])),
+                 (ver, rand_value(rng, W[ver]), W[ver], rng.choice(_BADFORMS))]
+        if rng.random() < 0.3:
+            extra.append((ver, rand_value(rng, W[ver]), W[ver], rng.choice(_BADFORMS)))
+        for x in extra:
+            seq.insert(rng.randrange(len(seq) + 1), x)
+        cases.append(_case(seq, 'err/order', rng.choice(['list', 'tuple', 'iter']), raw=True))
     return cases
 
 
@@ -124,6 +197,17 @@ def _obj(i):
         return IPAddress(v, ver)
     if form == 'astr':
         return _astr(ver, v)
+    if form == 'int':
+        return v
+    if form == 'rng':
+        return netaddr.IPRange(IPAddress(v, ver), IPAddress(v, ver))
+    if form == 'bad':
+        return _BAD_TEXTS[(v + p) % len(_BAD_TEXTS)]
+    host = (1 << (W[ver] - p)) - 1
+    if form == 'mask':
+        return '%s/%s' % (_astr(ver, v), _astr(ver, ((1 << W[ver]) - 1) ^ host))
+    if form == 'host':
+        return '%s/%s' % (_astr(ver, v), _astr(ver, host))
     return '%s/%d' % (_astr(ver, v), p)
 
 
@@ -140,6 +224,10 @@ def impl(c):
 
 def oracle(c, got):
     _, items, container = c.args
+    if any(i[3] in _BADFORMS for i in items):
+        # a bare int / IPRange / unparsable text is no address or network: the call must raise (which exception, and
+        # which of several comes first, is fixed by the correspondence with the model)
+        return None if got.startswith('!') else 'a sequence with an element that is no address or network gave %s' % got
     if len(items) < 2:
         return None if got == '!value' else 'fewer than two inputs gave %s, expected ValueError' % got
     vers = set(i[0] for i in items)
@@ -165,10 +253,10 @@ def repro(c):
             parts.append('IPNetwork((%d, %d), version=%d)' % (v, p, ver))
         elif form == 'addr':
             parts.append('IPAddress(%d, %d)' % (v, ver))
-        elif form == 'astr':
-            parts.append(repr(_astr(ver, v)))
+        elif form == 'rng':
+            parts.append('IPRange(IPAddress(%d, %d), IPAddress(%d, %d))' % (v, ver, v, ver))
         else:
-            parts.append(repr('%s/%d' % (_astr(ver, v), p)))
+            parts.append(repr(_obj((ver, v, p, form))))
     s = '[%s]' % ', '.join(parts)
     if container == 'iter':
         s = 'iter(%s)' % s
